@@ -123,6 +123,12 @@ static URI_INLINE UriBool URI_FUNC(EqualsAuthority)(const URI_TYPE(Uri) * first,
 					&second->hostData.ipFuture)) ? URI_TRUE : URI_FALSE;
 	}
 
+	/* Registered name: an IP literal with the same text, e.g. [v1.x], is a different host */
+	if ((second->hostData.ip4 != NULL) || (second->hostData.ip6 != NULL)
+			|| (second->hostData.ipFuture.first != NULL)) {
+		return URI_FALSE;
+	}
+
 	return !URI_FUNC(CompareRange)(&first->hostText, &second->hostText)
 			? URI_TRUE : URI_FALSE;
 }
